@@ -130,11 +130,13 @@ def concurrent_session(kind, msgs, pause_plan, stagger):
         conn = sim.conns[-1]
         base = len(conn.written)
         conn.pause_plan = list(pause_plan)
+        tasks = []
         for m, gap in zip(msgs, stagger):
-            sim.spawn("send", m)
+            tasks.append(sim.spawn("send", m))
             for _ in range(gap):
                 await asyncio.sleep(0)
-        await asyncio.sleep(30.0)
+        await asyncio.wait(tasks, timeout=5000.0)
+        await asyncio.sleep(1.0)
         sim.sent_from = base
         await sim.call("close")
     return simgw.run_session(kind, scenario)
@@ -454,15 +456,22 @@ def run_many(spec, acc):
                 sim.sent_from = len(conn.written)
                 conn.pause_plan = list(plan)
                 i = 0
+                tasks = []
                 while i < len(msgs):
                     burst = rng.randint(1, 4)
                     for m in msgs[i:i + burst]:
-                        sim.spawn("send", m)
+                        tasks.append(sim.spawn("send", m))
                     i += burst
                     await asyncio.sleep(rng.choice([0.0, 0.001, 0.05]))
-                await asyncio.sleep(60.0)
+                # paused writes resume after N loop *steps*; an otherwise idle loop only steps with the heartbeat, so
+                # wait for the senders themselves (bounded in virtual time), not for a fixed period
+                await asyncio.wait(tasks, timeout=20000.0)
+                sim.all_sends_returned = all(t.done() for t in tasks)
                 await sim.call("close")
             sim, stats = simgw.run_session(kind, scenario, max_steps=900_000)
+            if sim is not None and not stats["error"] and not getattr(sim, "all_sends_returned", False):
+                acc.inconclusive_because("many-sends session: senders still pending after 20000 virtual seconds")
+                continue
             judge_concurrent(sim, stats, kind, msgs, plan[:40], [0] * 4, acc, fast_of)
             acc.count("many_sends_sessions")
     finally:
